@@ -3,6 +3,7 @@ package main
 import (
 	"encoding/binary"
 	"fmt"
+	"github.com/sergeymakinen/go-crypt/des/descrypt"
 	"regexp"
 	"strings"
 
@@ -77,7 +78,7 @@ var schemeAPIs = []schemeAPI{
 		func(h string) (string, error) {
 			s, r, err := desext.Params(h)
 			return fmtParams(s, r, 0, 0, "", 0, false), err
-		}, regexp.MustCompile(`^_[./0-9A-Za-z]{4}[./0-9A-Za-z]{4}[./0-9A-Za-z]{11}$`), [][2]uint32{{1, 0}, {2, 0}, {5001, 0}}, 300},
+		}, regexp.MustCompile(`^_[./0-9A-Za-z]{4}[./0-9A-Za-z]{4}[./0-9A-Za-z]{11}$`), [][2]uint32{{1, 0}, {2, 0}, {5001, 0}, {65536, 0}, {65537, 0}, {327681, 0}, {1048577, 0}}, 300},
 	{"bcrypt", bcrypt.Check, func(pw string, r, m uint32) (string, error) { return bcrypt.NewHash(pw, uint8(r)) },
 		func(h string) (string, error) {
 			s, c, o, err := bcrypt.Params(h)
@@ -194,7 +195,47 @@ func (c *Ctx) nearMisses(p []byte) [][]byte {
 	return out
 }
 
+// desIntOps: the BSDi rounds/salt field coding (descrypt.EncodeInt / DecodeInt) against the model on
+// every boundary of the four 6-bit groups, and decode∘encode = id directly (C12: NewHash writes the
+// rounds through EncodeInt, Params reads them back through DecodeInt).
+func desIntOps(c *Ctx) {
+	var vals []uint32
+	for sh := uint(0); sh <= 24; sh += 6 {
+		for _, d := range []int64{-2, -1, 0, 1, 2} {
+			v := int64(1)<<sh + d
+			if v >= 0 && v < 1<<24 {
+				vals = append(vals, uint32(v))
+			}
+		}
+	}
+	for _, v := range []uint32{0, 63, 64, 4095, 4096, 5001, 65535, 65536, 65537, 262143, 262144, 327680, 798915, 1<<24 - 1} {
+		vals = append(vals, v)
+	}
+	n := 300
+	if c.Thorough() {
+		n = 20000
+	}
+	for i := 0; i < n; i++ {
+		vals = append(vals, uint32(c.Rng.Intn(1<<24)))
+	}
+	for _, v := range vals {
+		e := descrypt.EncodeInt(v)
+		c.Op(fmt.Sprintf("desenc %d", v), hx(e))
+		d := descrypt.DecodeInt(e)
+		c.Op("desdec "+hx(e), fmt.Sprint(d))
+		c.Direct++
+		if d != v {
+			c.Fail("not-canonical", fmt.Sprintf("descrypt.DecodeInt(EncodeInt(%d)) = %d: a generated BSDi hash would carry other rounds than requested", v, d),
+				map[string]string{"suite": "scheme", "scheme": "desext", "rounds": fmt.Sprint(v), "encoded": hx(e)})
+		}
+	}
+	for _, t := range []string{"", ".", "z", "..", "zzzz", "zzzzz", "a@..", "/...", "./..0"} {
+		c.Op("desdec "+hx([]byte(t)), fmt.Sprint(descrypt.DecodeInt([]byte(t))))
+	}
+}
+
 func suiteScheme(c *Ctx) {
+	desIntOps(c)
 	if h, ok := c.Replay["hash"]; ok {
 		for _, api := range schemeAPIs {
 			if api.name == c.Replay["scheme"] {
